@@ -225,6 +225,32 @@ theorem writer_shape (z : Zoned) (hz : ZInv z) (Y : Int) (o : Nat) (hw : WallDat
       if 0 ≤ Y ∧ Y ≤ 9999 then .ok (stdHead (fieldsOf z Y o) ++ shownZone z.off) else .panic :=
   to_rfc2822_shape z hz Y o hw
 
+/-- **writer_panics_iff.**  `to_rfc2822` panics exactly when the wall-clock year is negative or has more
+than four digits (there is NO lower limit at 1900: RFC 2822 forbids such years, chrono writes them). -/
+theorem writer_panics_iff (z : Zoned) (hz : ZInv z) (Y : Int) (o : Nat) (hw : WallDate z Y o) :
+    Rfc2822.to_rfc2822 z = .panic ↔ (Y < 0 ∨ 9999 < Y) := by
+  rw [writer_shape z hz Y o hw]
+  by_cases hr : 0 ≤ Y ∧ Y ≤ 9999
+  · rw [if_pos hr]; constructor
+    · intro h; cases h
+    · intro h; omega
+  · rw [if_neg hr]; constructor
+    · intro _; omega
+    · intro _; rfl
+
+/-- the writer's year range on concrete values (kernel evaluation; the real crate gives the same):
+1899-01-01 and 0000-01-01 are written; −0001-12-31, 10000-01-01, the first and the last representable
+date panic in `to_rfc2822` and give `fmt::Error` through the item -/
+example :
+    Rfc2822.to_rfc2822 ⟨⟨dateOfYo 1899 1, ⟨0, 0⟩⟩, 0⟩ = .ok (stdText ⟨some .sun, 1, 1, 1899, 0, 0, some 0, 0⟩) ∧
+    Rfc2822.to_rfc2822 ⟨⟨dateOfYo (-1) 365, ⟨86399, 0⟩⟩, 0⟩ = .panic ∧
+    Rfc2822.to_rfc2822 ⟨⟨dateOfYo 10000 1, ⟨0, 0⟩⟩, 0⟩ = .panic ∧
+    Rfc2822.to_rfc2822 ⟨⟨dateOfYo (-262143) 1, ⟨0, 0⟩⟩, 0⟩ = .panic ∧
+    Rfc2822.to_rfc2822 ⟨⟨dateOfYo 262142 365, ⟨86399, 0⟩⟩, 0⟩ = .panic ∧
+    Rfc2822.format_item_rfc2822 ⟨⟨dateOfYo (-1) 365, ⟨86399, 0⟩⟩, 0⟩ = .ok none ∧
+    Rfc2822.format_item_rfc2822 ⟨⟨dateOfYo 262142 365, ⟨86399, 0⟩⟩, 0⟩ = .ok none := by
+  decide +kernel
+
 /-- for a whole-minute offset that text is the standard form `stdText` of the wall-clock fields -/
 theorem writer_shape_whole_minute (z : Zoned) (hz : ZInv z) (Y : Int) (o : Nat) (hw : WallDate z Y o)
     (hr : 0 ≤ Y ∧ Y ≤ 9999) (hoff : z.off % 60 = 0) :
@@ -452,6 +478,105 @@ theorem tables_ok :
     (∀ e ∈ Extracted.ZONE_2822, zoneSecs e.1 = some (e.2 * 3600)) ∧
     Extracted.SHORT_WEEKDAYS = dayNames ∧ Extracted.SHORT_MONTHS = monthNames := by
   refine ⟨by decide, by decide, by decide +kernel, by decide, name_tables.1, name_tables.2.1⟩
+
+/-- **zone_names_sound.**  Conversely `timezone_offset_2822` reads NOTHING but the zones of the
+specification: whatever it accepts is a zone `zz` of the relation (numeric with MM < 60, a table name,
+a single letter other than J) in front of the returned rest, with the returned offset.  With
+`zone_names`: the scanner's zones are exactly `Zone`. -/
+theorem zone_names_sound (s rest : List Nat) (off : Int) (h : Scan.timezone_offset_2822 s = .ok (rest, off)) :
+    ∃ zz, Zone zz off ∧ s = zz ++ rest := tz_inv s rest off h
+
+/-- **obsolete_zone_table.**  The complete table of obsolete zones, on the names re-extracted from
+`scan::timezone_offset_2822`: every extracted name in every letter case is read, alone or before white
+space / a comment, as its RFC 2822 §4.3 hours (`z` as +0000); every single ASCII letter but `J`/`j` is read
+as +0000 (RFC 2822 says −0000 = "unknown"; chrono's offset type has one zero), and `J`, `j` are rejected. -/
+theorem obsolete_zone_table :
+    (∀ e ∈ Extracted.ZONE_2822, ∀ v, CaseOf e.1 v → ∀ rest, NoAlphaHead rest →
+      Scan.timezone_offset_2822 (v ++ rest) = .ok (rest, e.2 * 3600)) ∧
+    (∀ c, isAlpha c → lower c ≠ 106 → ∀ rest, NoAlphaHead rest →
+      Scan.timezone_offset_2822 (c :: rest) = .ok (rest, 0)) ∧
+    (∀ c, lower c = 106 → ∀ rest off, Scan.timezone_offset_2822 [c] ≠ .ok (rest, off)) := by
+  refine ⟨?_, ?_, ?_⟩
+  · intro e he v hv rest hr
+    rcases tables_ok.2.1 e he with hm | hz
+    · exact zone_names v (e.2 * 3600) (Zone.name v e.1 e.2 hm hv) rest hr
+    · subst hz
+      have hl : v.map lower = [122] := hv
+      have hlen : v.length = 1 := by rw [← List.length_map (f := lower), hl]; rfl
+      match v, hlen, hl with
+      | [c], _, hl =>
+        simp only [List.map_cons, List.map_nil, List.cons.injEq, and_true] at hl
+        have ha : isAlpha c := lower_alpha c 122 hl (by omega)
+        have := zone_names [c] 0 (Zone.military c ha (by omega)) rest hr
+        simpa using this
+  · intro c ha hj rest hr
+    exact zone_names [c] 0 (Zone.military c ha hj) rest hr
+  · intro c hj rest off h
+    obtain ⟨zz, hz, hs⟩ := tz_inv [c] rest off h
+    cases hz with
+    | num neg h1 h2 m1 m2 _ _ _ _ =>
+      have := congrArg List.length hs
+      simp at this
+    | name _ nm hours hmem hcase =>
+      have hlen : ∀ e ∈ zoneTable, 2 ≤ e.1.length := by decide
+      have h2 := hlen _ hmem
+      have hl : zz.length = nm.length := by rw [← hcase, List.length_map]
+      have := congrArg List.length hs
+      simp only [List.length_cons, List.length_nil, List.length_append] at this
+      simp only [] at h2
+      omega
+    | military c' _ hj' =>
+      have : c = c' := by
+        have := congrArg List.head? hs
+        simpa using this
+      subst this
+      exact hj' hj
+
+/-! ## white space and comments -/
+
+/-- **white_space_exact.**  What the reader takes as one white-space character (`Scan.wsLen`, the model
+of `char::is_whitespace` on UTF-8, used by `trim_start` / `scan::space`) is exactly one of the 25
+encodings of the specification's table `WS`, and that table is the UTF-8 encoding of the 25 code points
+with the Unicode property `White_Space`. -/
+theorem white_space_exact :
+    (∀ s, Scan.wsLen s ≠ 0 ↔ ∃ w r, w ∈ WS ∧ s = w ++ r) ∧
+    (∀ w ∈ WS, ∀ r, Scan.wsLen (w ++ r) = w.length ∧ 0 < w.length) ∧
+    WS = WS_CODEPOINTS.map utf8Enc ∧ WS_CODEPOINTS.length = 25 ∧ WS_CODEPOINTS.Nodup := by
+  refine ⟨fun s => ⟨fun h => ?_, fun h => ?_⟩, fun w hw r => wsLen_ws w hw r, by decide, by decide, by decide⟩
+  · obtain ⟨w, r, hw, hs, _⟩ := wsLen_inv s h
+    exact ⟨w, r, hw, hs⟩
+  · obtain ⟨w, r, hw, rfl⟩ := h
+    have := wsLen_ws w hw r
+    omega
+
+/-- **comment_exact.**  `scan::comment_2822` accepts exactly `*S "(" ctext ")"` of the specification —
+any bytes but parentheses and backslash, `\` followed by any byte (an escaped parenthesis does not
+nest or close), nested comments — and returns what follows the closing parenthesis. -/
+theorem comment_exact (s rest : List Nat) :
+    Scan.comment_2822 s = .ok rest ↔ ∃ w a, Ws w ∧ CText a ∧ s = w ++ (40 :: (a ++ 41 :: rest)) := by
+  constructor
+  · exact comment_inv s rest
+  · rintro ⟨w, a, hw, ha, rfl⟩
+    exact comment_one hw ha rest
+
+/-- **comment_any_depth.**  There is no nesting limit: `n` comments inside each other are comment text
+for every `n`, so `( (( … )) )` of any depth is read as one comment. -/
+theorem comment_any_depth (n : Nat) (rest : List Nat) :
+    CText (nestText n) ∧ Scan.comment_2822 (40 :: (nestText n ++ 41 :: rest)) = .ok rest := by
+  have h : ∀ n, CText (nestText n) := by
+    intro n
+    induction n with
+    | zero => exact CText.nil
+    | succ k ih =>
+      have := CText.nest (nestText k) [] ih CText.nil
+      simpa [nestText] using this
+  exact ⟨h n, (comment_exact _ rest).mpr ⟨[], nestText n, Ws.nil, h n, rfl⟩⟩
+
+/-- an escaped closing parenthesis does not close, an escaped opening one does not nest:
+`(a\)b\(c)` is one comment; `(a)b)` ends after `a` -/
+example : Scan.comment_2822 [40, 97, 92, 41, 98, 92, 40, 99, 41, 120] = .ok [120] ∧
+    Scan.comment_2822 [40, 97, 41, 98, 41] = .ok [98, 41] ∧
+    nestText 2 = [40, 40, 41, 41] := by decide
 
 /-! ## non-vacuity: concrete strings of the grammar with valid fields -/
 
